@@ -6,6 +6,7 @@ import ScriggoV.Model.Limits
   rows                     → ok <n>         number of rows of the limits table
   row <k>                  → ok <table> <guard|-> <width|-> <reserved> <codec> <hex message>
   outcome <table> <count>  → ok built | ok limit <hex message>     `count` entries needed in one function
+  reuse <table> <count>    → ok built | ok limit <hex message>     `count` distinct entries, then one of them again
   readback <codec> <t> <i> → ok <n> | ok fault                     what the VM reads for entry number i
   enums                    → ok <name>:<count>:<bits> … -/
 namespace ScriggoV.Drv.C20
@@ -49,6 +50,20 @@ def outcome (table : String) (count : Nat) : Option String :=
     | some r => some s!"ok limit {toHex (strBytes r.message)}"
     | none => some "ok built"
 
+/-- Build outcome when the function has `count` distinct entries of `table` and then uses one of
+them again -/
+def reuse (table : String) (count : Nat) : Option String :=
+  match limits.filter (fun r => r.table == table) with
+  | [] => none
+  | rows =>
+    match outcome table count with
+    | some "ok built" =>
+      let bad := rows.find? (fun r => intern r.guardBeforeLookup r.guard count (some 0) == .limitExceeded)
+      match bad with
+      | some r => some s!"ok limit {toHex (strBytes r.message)}"
+      | none => some "ok built"
+    | other => other
+
 def handle : List String → Option String
   | "fn" :: name :: args => do
     let f ← (runTable.find? (fun p => p.1 == name)).map (·.2)
@@ -66,6 +81,9 @@ def handle : List String → Option String
   | ["outcome", table, count] => do
     let n ← count.toNat?
     outcome table n
+  | ["reuse", table, count] => do
+    let n ← count.toNat?
+    reuse table n
   | ["readback", c, t, i] => do
     let c ← codecOf c
     let t ← t.toNat?
